@@ -222,6 +222,8 @@ func (p *fakePeer) send(m *bgp.BGPMessage, opt *bgp.MarshallingOption) error {
 	if err != nil {
 		return err
 	}
+	// a connection nobody reads any more must not block the script for ever (net.Pipe writes are synchronous)
+	p.conn.SetWriteDeadline(time.Now().Add(20 * time.Second))
 	_, err = p.conn.Write(b)
 	return err
 }
@@ -367,6 +369,11 @@ func (w *world) up(n sx.Node) {
 			}
 			time.Sleep(time.Second)
 		}
+	}
+	if old := p.conn; old != nil {
+		// the previous connection may still carry a session the server has not given up: keep reading it, so that
+		// nothing the server writes there blocks for ever (its reader goroutine follows p.conn)
+		go io.Copy(io.Discard, old)
 	}
 	a, b := net.Pipe()
 	srv := &pipeConn{Conn: a, local: &net.TCPAddr{IP: w.local.AsSlice(), Port: 179}, remote: &net.TCPAddr{IP: p.addr.AsSlice(), Port: 30000}}
@@ -828,6 +835,7 @@ func (w *world) step(n sx.Node) {
 	case "raw":
 		if p := w.peers[n.At(1).Atom]; p != nil && p.conn != nil {
 			b, _ := hex.DecodeString(n.At(2).Atom)
+			p.conn.SetWriteDeadline(time.Now().Add(20 * time.Second))
 			p.conn.Write(b)
 		}
 	case "wait":
